@@ -2189,6 +2189,29 @@ XPathProcessorImpl::FunctionNamespaceURI(int    opPos)
 
 
 
+// Determine if a token can be the first token of a location step.
+static bool
+isStartOfStep(const XalanDOMString&     theToken)
+{
+    if (theToken.empty() == true)
+    {
+        return false;
+    }
+    else
+    {
+        const XalanDOMChar  theChar = theToken[0];
+
+        return theChar == XalanUnicode::charFullStop ||
+               theChar == XalanUnicode::charAsterisk ||
+               theChar == XalanUnicode::charCommercialAt ||
+               theChar == XalanUnicode::charSolidus ||
+               theChar == XalanUnicode::charLowLine ||
+               XalanXMLChar::isLetter(theChar) == true;
+    }
+}
+
+
+
 void
 XPathProcessorImpl::LocationPath()
 {
@@ -2196,8 +2219,12 @@ XPathProcessorImpl::LocationPath()
 
     m_expression->appendOpCode(XPathExpression::eOP_LOCATIONPATH);
 
+    bool    fAbsolute = false;
+
     if(tokenIs(XalanUnicode::charSolidus) == true)
     {
+        fAbsolute = true;
+
         nextToken();
 
         const int   newOpPos = m_expression->opCodeMapLength();
@@ -2215,7 +2242,10 @@ XPathProcessorImpl::LocationPath()
         m_expression->updateOpCodeLength(newOpPos);
     }
 
-    if(m_token.empty() == false)
+    // A '/' by itself is a complete location path, so it can be
+    // followed by any token that cannot begin a step.  Otherwise,
+    // there must be at least one step.
+    if(fAbsolute == false || isStartOfStep(m_token) == true)
     {
         RelativeLocationPath();
     }
@@ -2308,7 +2338,7 @@ XPathProcessorImpl::Step()
         // Tell how long the entire step is.
         m_expression->updateOpCodeLength(opPos);
     }
-    else if (tokenIs(XalanUnicode::charRightParenthesis) == false)
+    else
     {
         error(
             XalanMessages::UnexpectedTokenFound_1Param,
